@@ -221,10 +221,15 @@ def build_many(ctx, keys):
         return dict(zip(keys, ex.map(lambda k: build(ctx, k), keys)))
 
 
-def run_sim(ctx, binary, args, timeout=None, env=None, allow_abort=False):
-    """Runs the simulator; returns (exit code, parsed JSON or None, stderr text)."""
-    p = subprocess.run([binary] + [str(a) for a in args], stdout=subprocess.PIPE, stderr=subprocess.PIPE, text=True,
-                       timeout=timeout, env=env)
+def run_sim(ctx, binary, args, timeout=7200, env=None, allow_abort=False):
+    """Runs the simulator; returns (exit code, parsed JSON or None, stderr text).  A run that exceeds `timeout`
+    is a harness error (exit 2), never a verdict -- e.g. a tree whose dispatch blocks on a std primitive the
+    shuttle scheduler cannot see."""
+    try:
+        p = subprocess.run([binary] + [str(a) for a in args], stdout=subprocess.PIPE, stderr=subprocess.PIPE, text=True,
+                           timeout=timeout, env=env)
+    except subprocess.TimeoutExpired:
+        raise HarnessError("simulator did not finish within %ds: %s %s" % (timeout, binary, " ".join(map(str, args))))
     rep = None
     out = p.stdout.strip().splitlines()
     if out:
@@ -603,7 +608,7 @@ def shuttle_runs(ctx, vd, binary, iters, procs):
         d = os.path.join(sched_dir, str(i))
         os.makedirs(d, exist_ok=True)
         sched = "pct" if i % 2 else "random"
-        code, rep, err = run_sim(ctx, binary, ["shuttle", "--seed", vd.seed * 1000 + i, "--iters", iters, "--sched", sched, "--dir", d])
+        code, rep, err = run_sim(ctx, binary, ["shuttle", "--seed", vd.seed * 1000 + i, "--iters", iters, "--sched", sched, "--dir", d], timeout=600 + iters // 50)
         for v in rep.get("violations", []):
             files = sorted(glob.glob(os.path.join(d, "schedule*.txt")))
             if files:
